@@ -1,4 +1,5 @@
 import Vore.Props.C01
+import Vore.Lemmas.Ds
 /-!
 # C02 — Captured variables are exactly the bindings of the successful path
 
@@ -89,10 +90,33 @@ theorem C02_backref (text : Bytes) (x : String) (d d' : Data) :
 example : backrefD [98] "x" ⟨1, 1, 2, [98], .cons "x" (.str []) .nil⟩ = some ⟨1, 1, 2, [98], .cons "x" (.str []) .nil⟩ := by
   rfl
 
+
+/-! ## the engine's stacks as written (libvore/ds/stack.go)
+
+The VM model keeps the backtrack, loop, variable and call stacks as lists (top first) inside each snapshot.  The
+engine keeps them in `ds.Stack` (a slice, top last) and `SearchEngineState.Copy()` copies each with `Stack.Copy()`.
+`Model/Ds.lean` is that code as written: -/
+
+/-- the slice read from the top is a list: `Push` is cons, `Peek` is the head, `Pop` returns the head and leaves the tail -/
+theorem C02_stack_is_list {α : Type} (s : Ds.Stack α) (v : α) :
+    (s.push v).toList = v :: s.toList ∧ s.peek = s.toList.head? ∧ s.pop.1 = s.toList.head? ∧
+      s.pop.2.toList = s.toList.tail ∧ (s.push v).pop = (some v, s) :=
+  ⟨Ds.toList_push s v, Ds.peek_toList s, (Ds.pop_toList s).1, (Ds.pop_toList s).2, Ds.pop_push s v⟩
+
+/-- `Copy()` (a new stack, every value pushed in order) holds the same values; being a value of its own here, a later
+push on the copy cannot reach the original — what the correspondence checks of the real slice (`y` operations) -/
+theorem C02_stack_copy {α : Type} (s : Ds.Stack α) (v : α) : s.copy = s ∧ (s.copy.push v).pop.2 = s :=
+  ⟨Ds.copy_eq s, by rw [Ds.copy_eq, Ds.pop_push]⟩
+
+/-- non-vacuity -/
+example : ((Ds.Stack.new : Ds.Stack Nat).push 1 |>.push 2).toList = [2, 1] := by decide
+
 #print axioms C02_bindings
 #print axioms C02_bindings_calls
 #print axioms C02_capture_value
 #print axioms C02_alternative_isolated
 #print axioms C02_backref
+#print axioms C02_stack_is_list
+#print axioms C02_stack_copy
 
 end Vore
